@@ -83,9 +83,15 @@ func jsonCells(tier string) []cells.Cell {
 	}
 	// allOf member orders
 	members := map[string]func(s *spec.Spec) *spec.Schema{
-		"refAB":     func(s *spec.Spec) *spec.Schema { addNamed(s, "Item", spec.Obj(spec.P("a", spec.T("string")), spec.P("b", spec.TF("integer", "int32"))).Req("a")); return spec.RefTo("Item") },
+		"refAB": func(s *spec.Spec) *spec.Schema {
+			addNamed(s, "Item", spec.Obj(spec.P("a", spec.T("string")), spec.P("b", spec.TF("integer", "int32"))).Req("a"))
+			return spec.RefTo("Item")
+		},
 		"inlineOpt": func(s *spec.Spec) *spec.Schema { return spec.Obj(spec.P("c", spec.T("string"))) },
-		"refAllOpt": func(s *spec.Spec) *spec.Schema { addNamed(s, "AllOpt", spec.Obj(spec.P("d", spec.T("string")), spec.P("e", spec.T("boolean")))); return spec.RefTo("AllOpt") },
+		"refAllOpt": func(s *spec.Spec) *spec.Schema {
+			addNamed(s, "AllOpt", spec.Obj(spec.P("d", spec.T("string")), spec.P("e", spec.T("boolean"))))
+			return spec.RefTo("AllOpt")
+		},
 		"inlineReq": func(s *spec.Spec) *spec.Schema { return spec.Obj(spec.P("f", spec.TF("number", "double"))).Req("f") },
 	}
 	mnames := spec.SortedKeys(members)
@@ -116,7 +122,7 @@ func jsonCells(tier string) []cells.Cell {
 	perms(nil, 2)
 	perms(nil, 3)
 	// oneOf shapes
-	for _, shape := range []string{"2", "3", "disc", "disc+mapping", "inline-variants"} {
+	for _, shape := range []string{"2", "3", "disc", "disc+mapping", "disc+partial-mapping", "inline-variants"} {
 		s, _, _ := cells.Base()
 		addNamed(s, "Cat", spec.Obj(spec.P("kind", spec.T("string")), spec.P("a", spec.T("string"))).Req("kind", "a"))
 		addNamed(s, "Dog", spec.Obj(spec.P("kind", spec.T("string")), spec.P("c", spec.TF("integer", "int32"))).Req("kind", "c"))
@@ -130,6 +136,10 @@ func jsonCells(tier string) []cells.Cell {
 		case "disc+mapping":
 			top.OneOf = append(top.OneOf, spec.RefTo("Emu"))
 			top.Disc = &spec.Disc{Prop: "kind", Mapping: map[string]string{"cat": "Cat", "dog": "Dog", "emu": "Emu", "bird": "Emu"}}
+		case "disc+partial-mapping":
+			// fewer mapping entries than variants, and the mapped variants are not the last one
+			top.OneOf = append(top.OneOf, spec.RefTo("Emu"))
+			top.Disc = &spec.Disc{Prop: "kind", Mapping: map[string]string{"kitty": "Cat", "doggo": "Dog"}}
 		case "inline-variants":
 			top.OneOf = []*spec.Schema{spec.Obj(spec.P("x", spec.T("string"))).Req("x"), spec.Obj(spec.P("y", spec.TF("integer", "int32"))).Req("y")}
 		}
@@ -225,8 +235,8 @@ func jsonDiscInfo(s *spec.Spec, pl *drv.JSONPayload) {
 							keys = append(keys, k)
 						}
 					}
-					if len(sc.Disc.Mapping) == 0 {
-						keys = []string{v.Ref}
+					if len(keys) == 0 {
+						keys = []string{v.Ref} // implicit mapping: the schema name
 					}
 					pl.VariantKeys = append(pl.VariantKeys, keys)
 				}
